@@ -592,7 +592,8 @@ def run_modules(ctx, mods):
         md["_scope_colls"] = [(sc, py_collisions(scope_groups(sc))) for sc in md["scopes"]]
     # build
     t0 = time.time()
-    wd = os.path.join(ctx.bdir, "cpp")
+    wd = os.path.join(ctx.bdir, "cpp-%d" % os.getpid())   # per process: concurrent runs must not share directories
+    shutil.rmtree(wd, ignore_errors=True)
     os.makedirs(wd, exist_ok=True)
     with concurrent.futures.ThreadPoolExecutor(max_workers=fw.NPROC) as ex:
         results = list(ex.map(build_module, [(os.path.join(wd, "m%04d" % k), md) for k, md, ir in todo]))
@@ -703,7 +704,7 @@ def keyword_check(ctx):
         n += 1
         ctx.case(("keyword", k), nontrivial=False)
         if st == 0:
-            d = os.path.join(ctx.bdir, "kw_" + k)
+            d = os.path.join(ctx.bdir, "kw-%d_%s" % (os.getpid(), k))
             md = dict(files={"m.emb": text}, namespace=["emboss_generated_code"], features=["keyword:" + k], scopes=[],
                       structs=[dict(name="Foo", cpp=["Foo"], size=1, params=[], fields=[dict(name=k, cls="uint")])], enums=[])
             res = build_module((d, md))
@@ -750,6 +751,15 @@ def corpus_modules():
 
 
 def run(ctx):
+    try:
+        _run_check(ctx)
+    finally:   # per-process scratch directories
+        import shutil as _sh
+        for _p in glob.glob(os.path.join(ctx.bdir, "*-%d*" % os.getpid())):
+            _sh.rmtree(_p, ignore_errors=True)
+
+
+def _run_check(ctx):
     ctx.rule = ("literals: edge and random integers through _render_integer (text and value, g++ as second oracle); primitive sizes "
                 "0..128 per prelude type; modules: one targeted module per known ill-formed class plus random modules (half of them "
                 "free of those features) with nested/inline types, parameters, imports, namespaces, enum_case, virtual fields, "
@@ -789,7 +799,7 @@ def run(ctx):
     for a, b, (v, txt) in lc:
         ctx.case(("lit", v), nontrivial=abs(v) > 9, sample=dict(value=v, text=txt) if abs(v) >= 2**63 - 1 else None)
     ctx.obligation("correspondence: _render_integer text and denoted value agree with the model on %d integers" % len(lc), not bad)
-    d = os.path.join(ctx.bdir, "lit")
+    d = os.path.join(ctx.bdir, "lit-%d" % os.getpid())
     shutil.rmtree(d, ignore_errors=True)
     os.makedirs(d)
     open(os.path.join(d, "lit.cc"), "w").write(literal_driver(lc))
